@@ -597,6 +597,7 @@ HARNESSES = {
         "quick": [{"fixed": {"kind": "switched", "ns": n, "mut": m, "couple": True}, "timeout": 280} for n in (0, 2) for m in (-1, 3, 4, 103)]
         + [{"fixed": {"kind": "switched", "ns": 0, "mut": m, "svc_state": 0, "app_state": 0}, "timeout": 280} for m in (104, 105, 106, 107)]
         + [{"fixed": {"kind": "switched", "ns": 0, "mut": -1, "svc_state": 0, "app_state": 0, "fstate": f}, "timeout": 280} for f in (1, 2)]
+        + [{"fixed": {"kind": "switched", "ns": n, "mut": -1, "svc_state": 0, "app_state": 0}, "timeout": 280} for n in (1, 3)]  # SHUTTING_DOWN, BOOTING
         + [{"fixed": {"kind": "firewalled", "node_name": "firewall_1", "ns": n, "mut": m, "svc_state": 0, "app_state": 0}, "timeout": 280} for n, m in ((0, -1), (0, 3), (2, -1))]
         + [{"fixed": {"kind": "wireless", "node_name": "router_1", "ns": n, "mut": -1, "svc_state": 0, "app_state": 0}, "timeout": 280} for n in (0, 2)],
         # one job per (topology, power state, mutation): unmodified with the full 6x3 service/application product,
